@@ -1,9 +1,11 @@
-NOTES = ("All checks rebuild every obligation from /repo's working tree. Obligation kinds: D = SMT-discharged "
-         "verification condition generated from the real function's ast, T = exact decision over a complete finite "
-         "domain (all shipped grammar tables / node classes / live regexes), B = bounded stand-in (run-time contract "
-         "over a stated scope; never counted as proved). level is 'proof' only when every obligation of the property "
-         "is D/T and discharged; otherwise 'other' with the split in the evidence. Exit 0 held / 1 VIOLATION / "
-         "2 undecided / 3 checker error. Known findings: known_findings.json.")
+NOTES = ("All checks rebuild every obligation from /repo's working tree. Obligation kinds: D = verification condition "
+         "generated from the real function's ast (or RegLan / effect inclusion over the real patterns / call graph) and "
+         "discharged for all inputs; T = exact decision over a complete finite domain (all shipped grammar tables / node "
+         "classes / live regexes); B = bounded stand-in (run-time contract over a stated scope; never counted as proved). "
+         "level is 'proof' only when every obligation of the property is D/T and discharged; otherwise 'other' with the "
+         "split in the evidence. Exit 0 held / 1 VIOLATION / 2 undecided (binding error, out-of-subset) / 3 checker error. "
+         "A D obligation whose proof no longer goes through is reported as VIOLATION ... no-failing-input-found. "
+         "Known findings: known_findings.json. Seeded changes used to test the checks: seeded/.")
 
 NOT_APPLICABLE = [
     dict(property_id='C12', reason="oracle is the CPython compiler of 8 interpreter versions (6 absent offline); no "
@@ -15,20 +17,82 @@ NOT_APPLICABLE = [
 ]
 
 _B = ("bounded stand-in: executable contract of the public API checked at run time on every concatenation of <=4 (quick) "
-      "/ <=5 (thorough) atoms of a 12-atom adversarial alphabet, seeded random atom strings, mutated template programs "
-      "and repository files; ")
+      "/ <=5 (thorough) atoms of 12-atom adversarial alphabets, seeded random atom strings, mutated template programs "
+      "and repository files")
+
+
+def C(design, technique, text, note, category='other'):
+    return dict(category=category, design_ref=design, technique=technique, text=text, note=note)
+
 
 CHECKS = {
-    'C01': dict(category='other', design_ref='4 C01', technique='run-time contract over exhaustive small scope (bounded); deductive obligations being added',
-                text=_B + 'oracle is the input text itself', note='bounded only so far; nothing is proved'),
-    'C02': dict(category='other', design_ref='4 C02', technique='run-time contract over exhaustive small scope (bounded)',
-                text=_B + 'parse never raises and returns a well-formed module', note='bounded only so far; recursion depth not modelled'),
-    'C03': dict(category='other', design_ref='4 C03', technique='run-time contract over exhaustive small scope (bounded)',
-                text=_B + 'oracle walks the input with the spec function advance()', note='bounded only so far'),
-    'C07': dict(category='other', design_ref='4 C07', technique='run-time relational contract over exhaustive small scope (bounded)',
-                text=_B + 'strict raises iff recovered tree has an error object; same tree; same first token', note='bounded only so far'),
-    'C11': dict(category='other', design_ref='4 C11', technique='run-time contract over exhaustive small scope (bounded)',
-                text=_B + 'navigation API against own in-order leaf numbering, every position of the text', note='bounded only so far'),
-    'C19': dict(category='other', design_ref='4 C19', technique='run-time contract over exhaustive small scope (bounded)',
-                text=_B + 'eval(dump()) for 4 indent styles, pickle round trip, refactor = splice for 1 and 2 disjoint nodes', note='bounded only so far'),
+    'C01': C('4 C01', 'run-time contract over exhaustive small scope (bounded); str-input VC of python_bytes_to_unicode',
+             _B + '; oracle is the input text itself (module, every subtree, leaves tiling, bytes input)',
+             'nothing about the tokenizer/parser tiling is proved: the deductive plan of DESIGN 4/C01 (split_lines, tokenize_lines '
+             'tiling, one-leaf-per-token, get_code) is not discharged; bounded only'),
+    'C02': C('4 C02', 'exact table facts (T) + run-time contract over exhaustive small scope and nesting generators (bounded)',
+             'T: no nullable rule, ENDMARKER only in start rules, ERRORTOKEN/ERROR_DEDENT in no rule, suite shape, for all 9 '
+             'grammars; ' + _B + ' plus nesting up to depth 100 under the default recursion limit',
+             'engine exception-freedom/termination obligations not discharged; A-REC'),
+    'C03': C('4 C03', 'VCs of every end_pos/start_pos implementation against one spec function, discharged by z3; regex class '
+             'invariants; bounded walk of the input',
+             'D: Leaf.end_pos, _LeafWithoutNewlines.end_pos, PrefixPart.end_pos/create_spacing_part, start_pos getter/setter '
+             'equal advance(start, value) for all values; ' + _B,
+             'tokenizer start positions (true_pos) and node delegation are bounded only; split_lines(keepends=False) contract '
+             'trusted from re.split (validated exhaustively in C15)'),
+    'C04': C('4 C04', 'run-time contract over enumerated edit histories (bounded); oracle = batch parser',
+             'every single edit, capped pairs and seeded longer histories over base texts: dump, code, parents and used names '
+             'equal a fresh parse after every step',
+             'partly applicable: no inductive invariant for the copy conditions within reach; bounded only'),
+    'C05': C('4 C05', 'exact table obligations (T) on all grammars + bounded conformance monitor against an independent EBNF reading',
+             'T: automaton language = rule right-hand side, plan chains, LL(1) facts for all rules/states; B: every non-error '
+             'node is a sentence of its rule (modulo documented conventions), errors only where a statement/block is expected',
+             'stack invariant I_stack of the engine not discharged'),
+    'C06': C('4 C06', 'exact LL(1) table obligations (T) + VC of _token_to_transition + generated derivations covering every automaton arc (bounded)',
+             'T: FIRST-exact transitions, plan chains, no nullable rule, no FOLLOW conflict on all 9 tables; D: token->label; '
+             'B: one derivation per arc, strict parse returns the collapsed derivation, recovering parse identical',
+             'M-LL1 paper lemma; I_stack not discharged'),
+    'C07': C('4 C07', 'frame/effect obligations over the real call graph + VCs of _recovery_tokenize and the parser constructors; relational bounded contract',
+             'D: mode flag read only at declared points and after the shared leniency branch, dedent filter armed only when '
+             'recovering, error objects constructed only in error_recovery/_stack_removal, token filter is the identity while '
+             'the filter is empty; ' + _B,
+             'M-2RUN self-composition step is a paper argument'),
+    'C08': C('4 C08', 'exact certificates on all rules/states/transitions of all shipped grammars (T) + enumerated small EBNF grammars (bounded)',
+             'T: language equivalence with an independent Thompson NFA per rule, subset-construction and simplification '
+             'certificates, FIRST-exact transitions with push chains, reserved strings, LL(1)/left-recursion facts; B: every '
+             '2-rule grammar up to size 3/4: rejected iff not LL(1), else certificates',
+             'graph algorithms themselves not proved (certificate route); M-SUBSET'),
+    'C09': C('4 C09', 'RegLan obligations on the live patterns (z3) + VCs of PrefixPart; bounded token-stream contract',
+             'D: dispatch facts of the pseudo-token pattern (9 versions), part invariants and totality of the prefix re-lexer '
+             '(refuted: known finding), PrefixPart positions; ' + _B,
+             'tokenize_lines tiling/balance/positions bounded only'),
+    'C10': C('4 C10', 'RegLan equivalence of lexeme classes with the running CPython\'s tokenize regex grammar; bounded stream comparison with CPython 3.12 only',
+             'D: Number/Comment/ASCII-name languages equal, operators covered, maximal munch, string prefixes, 9 versions; '
+             'B: token stream equals tokenize.generate_tokens on programs CPython 3.12 compiles',
+             'narrow claim: reference interpreters 3.6-3.11, 3.13 absent; stream level only for 3.12'),
+    'C11': C('4 C11', 'VCs over a heap model with ghost in-order leaf numbering, discharged by z3; bounded monitor',
+             'D: get_root_node, next/previous sibling, next/previous leaf, first/last leaf (all overrides), __eq__ identity; '
+             + _B + ' (every position of the text incl. outside borders)',
+             'get_leaf_for_position, search_ancestor, get_name_of_position bounded only; wf(tree) is a precondition'),
+    'C15': C('4 C15', 'RegLan equivalence of the coding-cookie search with PEP 263 (tokenize.cookie_re/blank_re); exhaustive bounded check of split_lines and decoding',
+             'D: parso finds a declaration exactly in the CR-free sources where CPython does; B: split_lines on all strings <=4/5 '
+             'over 13 separator characters, decoding vs tokenize.detect_encoding on all <=4/5 atom byte strings',
+             'split_lines proof not attempted (exhaustive bounded instead); str(bytes, enc) trusted'),
+    'C16': C('4 C16', 'model-free history enumeration with the contract as monitor (bounded), logical clock environment',
+             'all histories <=3 (quick) over write/touch/parse x3/drop/delete/race x files x grammars x cache dirs, GC trigger '
+             'at 600 and 1: tree equals fresh parse of current content',
+             'ghost-file-system VCs of DESIGN 4/C16 not built; known finding: read-then-stat race'),
+    'C17': C('4 C17', 'exception-effect (raises) inclusion over the call graph with trusted primitive raise sets; corruption and fault enumeration (bounded)',
+             'D: nothing escapes _load_from_file_system / try_to_save_module, only the source stat error escapes load_module; '
+             'B: every truncation offset, 9 corruptions, 288 fault injections',
+             'atomic replace / two-process interleavings not modelled'),
+    'C18': C('4 C18', 'frame (modifies) obligations over the call graph of parse/iter_errors/tokenize; run-time frame monitor (bounded)',
+             'D: no reachable function writes a shared object, module global, class attribute or mutable default except two '
+             'write-once memo tables; no ambient reads; B: deep fingerprint of shared state, repeat/history independence, '
+             'load orders, 8-thread smoke',
+             'M-NI non-interference lemma is a paper argument; schedules are not explored'),
+    'C19': C('4 C19', 'class-table protocol obligations (T) + small VCs; bounded dump/eval, pickle, refactor',
+             'T: constructor/dump/slots/import-name protocol over all tree classes; D: __eq__/__hash__, start_pos setter; '
+             + _B,
+             '_format_dump text and refactor splice bounded only'),
 }
